@@ -856,7 +856,8 @@ C10_Holds(c, cf, scope, call) ==
                /\ \A i \in 1..Len(r.va) : ~IsReq(r.va[i])
 
 C10_Required ==
-  \A c \in reg : \A call \in CallSpace(c, 1, TRUE, {"z"}) :
+  \* (for a function decorated before registration Gin cannot name the positional arguments: see Outer)
+  \A c \in { x \in reg : ~x.deco } : \A call \in CallSpace(c, 1, TRUE, {"z"}) :
      C01_CallIsWellFormed(c, call) => C10_Holds(c, cfg, CurScope, call)
 
 \* a signature-level REQUIRED on a denylisted / not allowlisted parameter is rejected at
